@@ -931,8 +931,15 @@ func (r *messageReader) Read(b []byte) (int, error) {
 			if err := c.setReadRemaining(rem); err != nil {
 				return 0, err
 			}
-			if c.readRemaining > 0 && c.readErr == io.EOF {
+			if c.readErr == io.EOF {
+				// the stream has ended: every later read reports that, the same way
+				// as when the end arrives on its own
 				c.readErr = errUnexpectedEOF
+				if c.readRemaining == 0 {
+					// with the last byte of the frame: this message is complete
+					c.messageReader = nil
+					return n, io.EOF
+				}
 			}
 			return n, c.readErr
 		}
